@@ -31,10 +31,10 @@ for i in ids:
         s = P.PROPS[i]
         m["checks"].append({
             "property_id": i,
-            "quick_cmd": "./check %s" % i,
-            "thorough_cmd": "./check %s --tier thorough" % i,
+            "quick_cmd": "cd /verif && ./check %s" % i,
+            "thorough_cmd": "cd /verif && ./check %s --tier thorough" % i,
             "evidence_file": "/verif/evidence/%s.json" % i,
-            "replay_cmd_template": "./check %s --replay {path}" % i,
+            "replay_cmd_template": "cd /verif && ./check %s --replay {path}" % i,
             "engine": "lean-model+harness",
             "level_claimed": {"category": s['level'], "text": s['level_text'], "design_ref": s.get('design_ref', 'DESIGN.md section 6, ' + i)},
             "level_note": s['level_note'],
